@@ -33,13 +33,40 @@ import (
 // storeMmemoizer implements the memoization.
 type storeMemoizer struct {
 	s storage.Store
+
+	// graphs keeps the memoizer of each graph obtained through this store, so
+	// that all the handles of a graph share one memoization and an update made
+	// through any of them resets it.
+	mu     sync.Mutex
+	graphs map[string]*graphMemoizer
 }
 
 // New returns a new memoized driver.
 func New(s storage.Store) storage.Store {
 	return &storeMemoizer{
-		s: s,
+		s:      s,
+		graphs: make(map[string]*graphMemoizer),
 	}
+}
+
+// memoizer returns the memoizer shared by the handles of the graph id. A
+// newly created graph always gets a new memoizer.
+func (s *storeMemoizer) memoizer(id string, g storage.Graph, created bool) storage.Graph {
+	s.mu.Lock()
+	defer s.mu.Unlock()
+	if m, ok := s.graphs[id]; ok && !created {
+		return m
+	}
+	m := &graphMemoizer{
+		g:    g,
+		memN: make(map[string][]*node.Node),
+		memP: make(map[string][]*predicate.Predicate),
+		memO: make(map[string][]*triple.Object),
+		memT: make(map[string][]*triple.Triple),
+		memE: make(map[string]bool),
+	}
+	s.graphs[id] = m
+	return m
 }
 
 // Name returns the ID of the backend being used.
@@ -59,14 +86,7 @@ func (s *storeMemoizer) NewGraph(ctx context.Context, id string) (storage.Graph,
 	if err != nil {
 		return nil, err
 	}
-	return &graphMemoizer{
-		g:    g,
-		memN: make(map[string][]*node.Node),
-		memP: make(map[string][]*predicate.Predicate),
-		memO: make(map[string][]*triple.Object),
-		memT: make(map[string][]*triple.Triple),
-		memE: make(map[string]bool),
-	}, nil
+	return s.memoizer(id, g, true), nil
 }
 
 // Graph returns an existing graph if available. Getting a non existing
@@ -76,20 +96,19 @@ func (s *storeMemoizer) Graph(ctx context.Context, id string) (storage.Graph, er
 	if err != nil {
 		return nil, err
 	}
-	return &graphMemoizer{
-		g:    g,
-		memN: make(map[string][]*node.Node),
-		memP: make(map[string][]*predicate.Predicate),
-		memO: make(map[string][]*triple.Object),
-		memT: make(map[string][]*triple.Triple),
-		memE: make(map[string]bool),
-	}, nil
+	return s.memoizer(id, g, false), nil
 }
 
 // DeleteGraph deletes an existing graph. Deleting a non existing graph
 // should return an error.
 func (s *storeMemoizer) DeleteGraph(ctx context.Context, id string) error {
-	return s.s.DeleteGraph(ctx, id)
+	err := s.s.DeleteGraph(ctx, id)
+	if err == nil {
+		s.mu.Lock()
+		delete(s.graphs, id)
+		s.mu.Unlock()
+	}
+	return err
 }
 
 // GraphNames returns the current available graph names in the store.
